@@ -136,10 +136,10 @@ func C17(r *drv.Run) {
 	if !quick(r) {
 		n = 80000
 	}
-	r.Rule = "result lists empty / one / many from find and replace commands, flat captures and named-loop (nested) variables, produced by fixed programs that capture arbitrary bytes (four replace commands whose captures are called like the replacer's built-ins; seven with names made of digits - leading zeros, names differing only in leading zeros - or needing escapes as JSON keys, given through regex named groups and loops named by a string; five with captures and named loops called like members of the output format: offset, column, value, variables, filename, replacement, matchNumber, key, null) and by the any-program generator, over texts with quotes, backslashes, control bytes, the replacement character U+FFFD written as a character (well-formed text, not the stand-in for a broken byte), <>&, U+2028/2029, multi-byte UTF-8, invalid UTF-8, and code points of every plane (format characters incl. astral tag characters, C1 controls, non-characters, private use, U+10FFFF; fixed and seeded random). Also RunFiles results whose file names need escaping or are spelled in a non-canonical way (quotes, backslash, <&>, non-ASCII, newline and tab in names; dir//name, dir/./name, dir/sub/../name; a directory argument with a trailing slash): the filename member must be the in-memory name, byte for byte. Also lists of 511 .. 20 000 matches (sizes at and next to powers of two and ten, every thousand, ten seed-chosen sizes), and EVERY list length from 1 to 1 500 (thorough: 9 000) rendered both ways and validated inside the worker; the nil list, the empty list and an emptied list (what a caller collecting results builds itself) must render as equal documents both ways. After the texts of a case a result list that has been rendered is refilled in place with the matches of another text (same length) and rendered again: it must give that other list's document. Oracle: Json() and FormattedJson() return without panic, json.Valid, decode to equal documents, one object per match whose fields equal the in-memory match (replacement present iff the match has one); exact string equality is demanded where the in-memory strings are valid UTF-8. Non-trivial = a result list with >= 1 match rendered and decoded; distinct by (program, text)."
+	r.Rule = "the fixed programs also in processes whose standard output is a terminal (a fresh pseudo-terminal) or the null device, under the environment of an interactive session (TERM, COLORTERM, forced colours); result lists empty / one / many from find and replace commands, flat captures and named-loop (nested) variables, produced by fixed programs that capture arbitrary bytes (four replace commands whose captures are called like the replacer's built-ins; seven with names made of digits - leading zeros, names differing only in leading zeros - or needing escapes as JSON keys, given through regex named groups and loops named by a string; five with captures and named loops called like members of the output format: offset, column, value, variables, filename, replacement, matchNumber, key, null) and by the any-program generator, over texts with quotes, backslashes, control bytes, the replacement character U+FFFD written as a character (well-formed text, not the stand-in for a broken byte), <>&, U+2028/2029, multi-byte UTF-8, invalid UTF-8, and code points of every plane (format characters incl. astral tag characters, C1 controls, non-characters, private use, U+10FFFF; fixed and seeded random). Also RunFiles results whose file names need escaping or are spelled in a non-canonical way (quotes, backslash, <&>, non-ASCII, newline and tab in names; dir//name, dir/./name, dir/sub/../name; a directory argument with a trailing slash): the filename member must be the in-memory name, byte for byte. Also lists of 511 .. 20 000 matches (sizes at and next to powers of two and ten, every thousand, ten seed-chosen sizes), and EVERY list length from 1 to 1 500 (thorough: 9 000) rendered both ways and validated inside the worker; the nil list, the empty list and an emptied list (what a caller collecting results builds itself) must render as equal documents both ways. After the texts of a case a result list that has been rendered is refilled in place with the matches of another text (same length) and rendered again: it must give that other list's document. Oracle: Json() and FormattedJson() return without panic, json.Valid, decode to equal documents, one object per match whose fields equal the in-memory match (replacement present iff the match has one); exact string equality is demanded where the in-memory strings are valid UTF-8. Non-trivial = a result list with >= 1 match rendered and decoded; distinct by (program, text)."
 	r.Assumptions = []string{"strings that are not valid UTF-8 cannot round-trip through JSON; for those only validity, document equality of the two renderings and all non-string fields are demanded"}
 	fixed := len(c17Programs)
-	r.Exec(6*fixed+n, drv.ExecOpts{Batch: 100}, func(i int) *drv.Item {
+	mk := func(i int) *drv.Item {
 		rng := gen.Derive(r.Seed, "C17", i)
 		var src string
 		texts := c17Texts
@@ -186,7 +186,23 @@ func C17(r *drv.Run) {
 				r.Sample(map[string]any{"program": src, "text": string(texts[0])})
 			}
 		}}
-	})
+	}
+	r.Exec(6*fixed+n, drv.ExecOpts{Batch: 100}, mk)
+	// the fixed programs again in processes whose standard output is a TERMINAL (a fresh pseudo-terminal) or the null
+	// device, with the environment of an interactive session (TERM, COLORTERM, forced colours): a rendering is a
+	// value, it does not depend on where the process's output goes
+	for _, env := range []struct {
+		stdout string
+		vars   []string
+	}{
+		{"pty", []string{"TERM=xterm-256color", "COLORTERM=truecolor", "NO_COLOR="}},
+		{"pty", []string{"TERM=xterm", "CLICOLOR_FORCE=1", "FORCE_COLOR=1", "NO_COLOR="}},
+		{"/dev/null", []string{"TERM=xterm-256color", "NO_COLOR="}},
+	} {
+		before := r.Counter("objects_compared_exactly")
+		r.Exec(fixed, drv.ExecOpts{Batch: 100, Stdout: env.stdout, Env: env.vars}, mk)
+		r.Count("objects_compared_with_output_on_"+strings.Trim(strings.ReplaceAll(env.stdout, "/", "_"), "_"), int(r.Counter("objects_compared_exactly")-before))
+	}
 	c17Files(r)
 	c17Large(r)
 	if r.NViolations() == 0 {
